@@ -44,6 +44,14 @@ Definition type_split_free (ty : str) : bool :=
 Definition dom_triple (t : triple) : bool :=
   dom_node (subj t) && type_split_free (ntype (subj t)) && dom_pred (tpred t) && dom_object (tobj t).
 
+(* anchors whose zone offset Format can print in a form Parse reads back: below 25 hours.  time.Parse accepts a zone hour up
+   to 24 and a zone minute up to 60, so it can return +/-25:00 (from "+24:60"), which Format prints as "+25:00" and Parse
+   then rejects *)
+Definition off_printable (t : time) : bool := (-90000 <? t_off t)%Z && (t_off t <? 90000)%Z.
+Definition anchor_printable (p : pred) : bool := match panchor p with Some t => off_printable t | None => true end.
+Definition object_printable (o : object) : bool := match o with OPred p => anchor_printable p | _ => true end.
+Definition triple_printable (t : triple) : bool := anchor_printable (tpred t) && object_printable (tobj t).
+
 (* in the line-oriented graph format no component may contain a newline: node ids and text literals are the only
    components printed raw (types cannot contain one, predicate ids are quoted, numbers and blobs are digits) *)
 Definition no_nl (s : str) : bool := negb (memb x0a s).
